@@ -26,6 +26,8 @@ var c29Full = []string{"bsc", "heco", "hsc", "pixiechain", "bytom"}
 var c29Reduced = []string{"msc"}
 
 func runC29(c *core.Ctx) {
+	accessorPairs(c, "C29.accessor-keys", 16, "native/service/header_sync/bsc", "native/service/header_sync/heco", "native/service/header_sync/hsc", "native/service/header_sync/msc",
+		"native/service/header_sync/pixiechain", "native/service/header_sync/bytom", "native/service/header_sync/polygon")
 	for _, p := range c29Full {
 		checkPosaSync(c, "native/service/header_sync/"+p, "Handler", true)
 	}
@@ -33,6 +35,9 @@ func runC29(c *core.Ctx) {
 		checkPosaSync(c, "native/service/header_sync/"+p, "Handler", false)
 	}
 	checkPosaSync(c, "native/service/header_sync/polygon", "BorHandler", false)
+	for _, p := range append(append([]string{}, c29Full...), append(c29Reduced, "polygon")...) {
+		checkPosaRepoint(c, "native/service/header_sync/"+p)
+	}
 }
 
 func pkgFuncObj(c *core.Ctx, pkg, name string) *types.Func {
